@@ -80,6 +80,8 @@ def op_harness(out_kind, scalar_operand):
                 return op_out
 
         class FakeOp:
+            weak_python_scalars = True
+
             def __call__(self):
                 return FakeOpInst()
 
